@@ -76,7 +76,11 @@ impl<'a, TPrinter: Printer> FileExecutor<'a, TPrinter> {
         let config = self.execution_engine.execution_config();
         self.execution_engine.execute_joined_table(self.running.clone())?;
 
-        for reader in std::mem::take(&mut self.readers).into_iter() {
+        'readers: for reader in std::mem::take(&mut self.readers).into_iter() {
+            if self.execution_engine.reached_limit() {
+                break;
+            }
+
             for line in reader.lines() {
                 #[cfg(feature = "verif_hooks")]
                 crate::helpers::verif_hooks::on_line("batch");
@@ -98,7 +102,7 @@ impl<'a, TPrinter: Printer> FileExecutor<'a, TPrinter> {
                     }
 
                     if output.reached_limit {
-                        break;
+                        break 'readers;
                     }
                 } else {
                     break;
@@ -211,6 +215,10 @@ impl<'a> FollowFileExecutor<'a> {
     pub fn execute(&mut self) -> ExecutionResult<()> {
         if self.execution_engine.is_join() {
             return Err(ExecutionError::JoinNotSupported);
+        }
+
+        if self.execution_engine.reached_limit() {
+            return Ok(());
         }
 
         for input_line in FollowFileIterator::new(self.reader.take().unwrap()) {
